@@ -980,6 +980,60 @@ def legacy_rng_labels(case):
   return sorted({l for c in case['cases'] for l in rotation_labels(c)})
 
 
+# ------------------------------------------------------- across processes
+
+def _rotate_hex(case):
+  tree = build_tree(case['tree'])
+  rot, shapes = wh.structured_rotation_pytree(tree, key_array(case['key']))
+  return {'rot': [np.asarray(l).astype(np.float64).tobytes().hex()
+                  for l in jax.tree_util.tree_leaves(rot)],
+          'shapes': [np.asarray(l).tolist() for l in jax.tree_util.tree_leaves(shapes)]}
+
+
+def child_rotate_batch(cases):
+  out = []
+  for case in cases:
+    try:
+      out.append(_rotate_hex(case))
+    except Exception as e:  # pylint: disable=broad-except
+      out.append({'error': f'{type(e).__name__}: {e}'})
+  return out
+
+
+def run_pytree_across_processes(case):
+  """The rotation of a tree is a function of (tree, key) -- in every process.
+  A rotated tree is un-rotated by whoever holds the key (the server of another
+  job, a restarted run): the rotated values and recorded shapes computed here
+  are compared bit for bit with those computed by a fresh interpreter with
+  another PYTHONHASHSEED (names of dict entries hash differently there)."""
+  from vf import child
+  here = []
+  for c in case['cases']:
+    here.append(guarded('pytree_rotation', _rotate_hex, c))
+  there = child.call('vf.props.c18', 'child_rotate_batch', case['cases'],
+                     {'PYTHONHASHSEED': str(4242 + case['hashseed'])}, 'across_processes')
+  require(len(there) == len(here), 'across_processes:child_result_count')
+  for i, (a, b) in enumerate(zip(here, there)):
+    require('error' not in b, 'across_processes:raised_in_other_process', lambda: f'case {i}: {b}')
+    require(a['shapes'] == b['shapes'], 'across_processes:recorded_shapes_differ',
+            lambda: f'case {i}: {a["shapes"]} vs {b["shapes"]}')
+    diff = [j for j, (x, y) in enumerate(zip(a['rot'], b['rot'])) if x != y]
+    require(not diff and len(a['rot']) == len(b['rot']),
+            'across_processes:same_key_other_rotation',
+            lambda: f'case {i}: leaves {diff} of {len(a["rot"])} differ between two processes')
+  return []
+
+
+@st.composite
+def across_strategy(draw, tier):
+  return {'cases': [draw(pytree_strategy(tier)) for _ in range(6)],
+          'hashseed': draw(st.integers(0, 3))}
+
+
+def across_labels(case):
+  return sorted({l for c in case['cases'] for l in pytree_labels(c)})
+
+
 CHECKS = [
     Check(name='transform_grid', run=run_grid, cases=grid_cases,
           labels=transform_labels, nontrivial=transform_nontrivial, time_share=1.5,
@@ -1011,6 +1065,11 @@ CHECKS = [
           doc='six rotation_roundtrip cases per child interpreter started with '
               'JAX_THREEFRY_PARTITIONABLE=0 (draws of different lengths from one key '
               'share no prefix there): every clause of rotation_roundtrip'),
+    Check(name='rotation_pytree_across_processes', run=run_pytree_across_processes,
+          strategy=across_strategy, labels=across_labels, nontrivial=rotation_nontrivial,
+          budget={'quick': 32, 'thorough': 480}, time_share=0.8,
+          doc='six trees per case: rotated values and recorded shapes are bit-identical '
+              'between this process and a fresh interpreter with another PYTHONHASHSEED'),
     Check(name='rotation_pytree', run=run_pytree, strategy=pytree_strategy,
           labels=pytree_labels, nontrivial=rotation_nontrivial,
           budget={'quick': 600, 'thorough': 12000}, time_share=1.5,
